@@ -784,6 +784,37 @@ func (e *Env) evalCall(n *ECall) (SVal, types.Type, error) {
 			return nil, nil, fmt.Errorf("deref needs a pointer to a struct")
 		}
 		return LocV{refOf(v), pt.Elem(), e.st}, pt.Elem(), nil
+	case "f32add", "f32sub", "f32lt":
+		a, _, err := e.evalTerm(n.Args[0])
+		if err != nil {
+			return nil, nil, err
+		}
+		b, _, err := e.evalTerm(n.Args[1])
+		if err != nil {
+			return nil, nil, err
+		}
+		switch id.Name {
+		case "f32add":
+			return Scalar{App(SF32, e.fe.uninterp("f32.add", []Term{a, b}, SF32), a, b)}, types.Typ[types.Float32], nil
+		case "f32sub":
+			return Scalar{App(SF32, e.fe.uninterp("f32.sub", []Term{a, b}, SF32), a, b)}, types.Typ[types.Float32], nil
+		}
+		return Scalar{App(SBool, e.fe.uninterp("f32.lt", []Term{a, b}, SBool), a, b)}, tBool, nil
+	case "f32of":
+		a, _, err := e.evalTerm(n.Args[0])
+		if err != nil {
+			return nil, nil, err
+		}
+		return Scalar{App(SF32, e.fe.uninterp("f32.of_int", []Term{a}, SF32), a)}, types.Typ[types.Float32], nil
+	case "f32zero":
+		return Scalar{Term{"f32.zero", SF32}}, types.Typ[types.Float32], nil
+	case "f32c":
+		s, ok := n.Args[0].(*EStr)
+		if !ok {
+			return nil, nil, fmt.Errorf("f32c needs the exact constant as a string")
+		}
+		name := e.fe.uninterp("f32.const."+s.V, nil, SF32)
+		return Scalar{Term{name, SF32}}, types.Typ[types.Float32], nil
 	case "heapobj":
 		v, _, err := e.eval(n.Args[0])
 		if err != nil {
